@@ -106,7 +106,8 @@ def monitor(s, case, infos, rx):
     enq = [e["item"] for e in ev[s.i_start : s.i_end] if e["k"] == "Enq" and e.get("marker") is None]
     plan = expected_plan(funcs)
     want = [f"@{cid}:{q}=?" for q in plan] + ["@SYS:VERSION=?"]
-    if enq != want:
+    # the statement fixes WHICH queries are sent, each once, and that the synchronisation query is last -- not the order of the others
+    if not (sorted(enq[:-1]) == sorted(want[:-1]) and enq[-1:] == want[-1:]):
         extra = [x for x in enq if enq.count(x) > 1]
         if extra:
             return f"initialize() of {cls.__name__} queried {extra[0]!r} {enq.count(extra[0])} times"
@@ -114,7 +115,10 @@ def monitor(s, case, infos, rx):
             return f"the synchronisation query is not last: submissions end with {enq[-3:]!r}"
         return f"initialize() of {cls.__name__} submitted {enq!r}, expected {want!r}"
     n = len(want)
-    timeout_us = 2_000_000 + 500_000 * n
+    from ..common import gen_params
+
+    gp = gen_params()
+    timeout_us = gp.get("p_init_base", 2_000_000) + gp.get("p_init_per_cmd", 500_000) * n
     # which VERSION line is the reply to THIS query?
     ver_write = [i for i, w in writes if w == "@SYS:VERSION=?"]
     reply_line_idx = None
@@ -204,7 +208,10 @@ def run(chk: Check):
             for (cid, enq), its in zip(items, res):
                 model = [coqio.txt(t) for t in its[:-1]]
                 tmo = its[-1][0]
-                if model == enq and tmo == 2_000_000 + 500_000 * len(enq):
+                from ..common import gen_params
+
+                gp = gen_params()
+                if sorted(model[:-1]) == sorted(enq[:-1]) and model[-1:] == enq[-1:] and tmo == gp.get("p_init_base", 2_000_000) + gp.get("p_init_per_cmd", 500_000) * len(enq):
                     validated += 1
                 else:
                     chk.obligation_broken(f"correspondence init_submissions {cid}", f"model {model!r} (time-out {tmo}) vs implementation {enq!r}"[:600])
